@@ -360,7 +360,12 @@ func WriteDefinitionTemplateSpec(w *formatting.IndentedWriter, td dsl.TypeDefini
 }
 
 func NamespaceIdentifierName(namespace string) string {
-	return formatting.ToSnakeCase(strings.ReplaceAll(namespace, ".", "::"))
+	snakeCased := formatting.ToSnakeCase(strings.ReplaceAll(namespace, ".", "::"))
+	if _, reserved := reservedNames[snakeCased]; reserved {
+		return snakeCased + "_"
+	}
+
+	return snakeCased
 }
 
 func TypeNamespaceIdentifierName(t dsl.TypeDefinition) string {
